@@ -36,6 +36,11 @@ def main():
     hdr = head.split("\npackage ")[0]
     m = re.search(r"([A-Za-z0-9_<>./-]+_test\.go)", hdr)
     r = re.search(r"(go test [^\n]*)", hdr)
+    if r and not m:
+        # "Place this file in: <dir>/" style: synthesise a file name
+        class _M:
+            def group(self, i): return "zz_seed_%s_demo_test.go" % pid.lower()
+        m = _M()
     if not m or not r:
         print("SEED %s: cannot parse placement/run from demo header" % pid); return 2
     dest, runcmd = m.group(1).strip("`'\""), r.group(1).strip().rstrip("`")
